@@ -12,7 +12,7 @@ CHECKS = {
         category='model_checking',
         text='TLC enumerates every document of the bounded builder model (Dom.tla) and evaluates the declarative '
              'semantics CssDecl.tla on a selector pool; every state is replayed into soupsieve.select/match and the '
-             'result list must equal the predicted relation in document order. The composed front end Lexer.tla -> ParseSel.tla -> Ir!Compile computes the IR of randomly SPELLED selector texts; Trace_Parse accepts iff the real parser built exactly that IR.',
+             'result list must equal the predicted relation in document order. The composed front end Lexer.tla -> ParseSel.tla -> Ir!Compile computes the IR of randomly SPELLED selector texts; Trace_Parse accepts iff the real parser built exactly that IR. The recorded selects (on randomly respelled texts) are validated twice: against the declarative CssDecl (Trace_Select) and against the implementation-shaped pipeline computed entirely in TLA+ from the characters (Trace_Pipe: Lexer, ParseSel, Ir!Compile, Ir!AlgoList).',
         design_ref='§6 C01',
         note='Bounded: trees <= 4-5 nodes, selector pools per configuration; CssDecl.tla trusted as reading of '
              'Selectors 3/4; documents built through the bs4 API.',
@@ -23,7 +23,7 @@ CHECKS = {
              'detached) x every (a, b) of a square x the four pseudo-classes x "of S" filters, and every accepted spelling of '
              '(a, b) from Nth.tla; the design-level theorems closed-form <=> exists n and ParseNth(Spell(a,b)) = (a,b) are '
              'TLC invariants; every state is replayed into soupsieve.select; random larger trees are recorded from the real '
-             'code and validated by TLC against CssDecl (Trace_Select). Namespaced sibling rows with a default namespace in the caller map are part of the recorded traces; Trace_Parse binds the An+B texts (incl. the implied of *|*) to the IR.',
+             'code and validated by TLC against CssDecl (Trace_Select). Namespaced sibling rows with a default namespace in the caller map are part of the recorded traces; Trace_Parse binds the An+B texts (incl. the implied of *|*) to the IR. The recorded selects (on randomly respelled texts) are validated twice: against the declarative CssDecl (Trace_Select) and against the implementation-shaped pipeline computed entirely in TLA+ from the characters (Trace_Pipe: Lexer, ParseSel, Ir!Compile, Ir!AlgoList).',
         design_ref='§6 C02',
         note='Bounded: |a|,|b| <= 7 exhaustively plus {100, 40000} (TLC 32-bit integers); rows <= 5; CssDecl.NthHolds trusted as '
              'the reading of Selectors 4 / CSS Syntax 3 An+B.',
